@@ -1,6 +1,7 @@
 """Check driver for engine-M based properties: runs the job list of a property module, passes every solver
 counterexample through the native replay gate, validates sampled path predictions natively, enforces the
 vacuity guards, writes the evidence file and decides the exit code (0 held / 1 VIOLATION / 2 inconclusive)."""
+import re
 import hashlib, importlib, json, os, sys, time, traceback
 from . import explore, native, build, models
 
@@ -67,9 +68,15 @@ def gate1(v):
     if pred is not None and pred.get('status') == 'PANIC' and 'overflow' in str(pred.get('panic', '')):
         # an arithmetic overflow that release builds wrap silently: confirm on the release control flow with overflow checks compiled in
         profiles.append('release-swar-ovf')
-    for prof in profiles:
-        nat = native.run_native([(entry, v['flags'], v['cap'], v['buf'])], prof)[0]
-        results[prof] = nat
+    # a counterexample may depend on the process environment (std builds): "[env NAME]" in the failure text names the variable the
+    # engine's nondeterministic stub assumed to be set; the replay process is then started with it (a few plausible values)
+    envs = [None]
+    m_env = re.search(r'\[env ([A-Za-z_][A-Za-z0-9_]*)\]', v.get('msg', '') + ' ' + str((pred or {}).get('panic', '')))
+    if m_env: envs = [{m_env.group(1): val} for val in ('1', '0', 'true')]
+    for prof, env in [(p, e) for p in profiles for e in envs]:
+        if confirmed and env is not None: break
+        nat = native.run_native([(entry, v['flags'], v['cap'], v['buf'])], prof, env=env)[0]
+        results[prof if env is None else f'{prof} {env}'] = nat
         viol = []
         for g in v.get('groups', []):
             viol += native.native_eval(g, kind, api, v['flags'], v['cap'], data, nat)
@@ -172,6 +179,8 @@ def run_property(pid, tier, seed, module_name=None, post=None):
     for j in jobs:
         k = fam_idx.get(j.family, 0); fam_idx[j.family] = k + 1; order.append(k)
     jobs = [j for _, _, j in sorted(zip([(0 if j.mandatory else 1, k) for j, k in zip(jobs, order)], range(len(jobs)), jobs), key=lambda t: (t[0], t[1]))]
+    if os.environ.get('VERIF_ONLY_JOBS'):      # development aid: restrict a run to the jobs whose name contains the given substring
+        jobs = [j for j in jobs if os.environ['VERIF_ONLY_JOBS'] in j.name]
     cap_s = TIER_CAP[tier] * float(os.environ.get('VERIF_TIME_SCALE', '1'))
     known = load_known()
     total = explore.Agg(); job_reports = []; failed_families = set(); inconclusive = []
